@@ -18,8 +18,8 @@ Tie (model <-> code), on the read-only tail of every history, for every strategy
   * after each read the invariant the proof rests on (`Coherent`: every loaded value / item / count / absent entry agrees with the
     database) is evaluated on the WHOLE real session.
 """
-import itertools, json, os, random, shutil, sqlite3, traceback
-from pony.orm import Database, Required, Optional, Set, PrimaryKey, db_session, select, commit, rollback, flush
+import itertools, json, os, random, shutil, sqlite3, traceback, zlib
+from pony.orm import Database, Required, Optional, Set, PrimaryKey, Json, IntArray, db_session, select, commit, rollback, flush
 from pony.orm import core
 import ponyutil
 from tracing import Tracer
@@ -32,7 +32,7 @@ def gen_schema(rng, simple=False):
     nent = rng.choice([1, 2, 2, 3, 3, 4])
     ents = []
     for e in range(nent):
-        ents.append({'pk': 'comp' if rng.random() < 0.2 and not simple else 'int', 'lazy_s': rng.random() < 0.5, 'lazy_v': rng.random() < 0.2,
+        ents.append({'pk': 'comp' if rng.random() < 0.2 and not simple else 'int', 'lazy_s': rng.random() < 0.5, 'lazy_v': rng.random() < 0.2, 'lazy_j': rng.random() < 0.5, 'lazy_arr': rng.random() < 0.5,
                      'sub': rng.random() < 0.3 and not simple})
     rels = []
     for i in range(rng.choice([1, 2, 2, 3, 3, 4])):
@@ -65,6 +65,9 @@ class World(object):
             d['tag'] = Required(int, lazy=lazy)
             d['v'] = Optional(int, lazy=lazy or spec['lazy_v'])
             d['s'] = Optional(str, nullable=True, autostrip=False, lazy=lazy or spec['lazy_s'])
+            # container-valued attributes: the loaded value must be a tracked container bound to (obj, attr) however it was loaded
+            d['j'] = Optional(Json, nullable=True, lazy=lazy or spec.get('lazy_j', False))
+            d['arr'] = Optional(IntArray, nullable=True, lazy=lazy or spec.get('lazy_arr', False))
         for i, r in enumerate(schema['rels']):
             k = r['kind']; na = 'r%da' % i; nb = 'r%db' % i
             A = 'E%d' % r['a']; B = 'E%d' % r['b']
@@ -238,6 +241,7 @@ def exec_op(w, op):
             return ['ok', sorted([w.pkof(o), None if getattr(o, op[2]) is None else getattr(getattr(o, op[2]), 'tag')] for o in w.q(E.select()))]
         if k == 'create':
             kw = dict(w.pkargs(op[1], op[2])); kw.update(tag=op[3], v=op[4], s=op[5])
+            kw['j'] = {'k': op[3], 'l': [op[2] % 7], 'd': {'x': 1}}; kw['arr'] = [op[2] % 5, op[3]]
             if len(op) > 8 and op[8] is not None and op[1] in w.subclasses: E = w.subclasses[op[1]]; kw['x'] = op[8]
             for name, t in op[6]:
                 x = w.fetch(t[0], t[1])
@@ -245,6 +249,30 @@ def exec_op(w, op):
             for name, ts in op[7]:
                 kw[name] = [x for x in (w.fetch(t[0], t[1]) for t in ts) if x is not None]
             E(**kw); return ['ok', None]
+        if k in ('jread', 'jmut'):
+            o = w.fetch(op[1], op[2])
+            if o is None: return ['absent']
+            def plain(v):
+                v = v.get_untracked() if hasattr(v, 'get_untracked') else v
+                return json.loads(json.dumps(v, sort_keys=True)) if v is not None else None
+            if k == 'jmut':
+                kind, val = op[3], op[4]
+                if kind in ('setkey', 'append', 'nested', 'delkey') and o.j is None: return ['ok', 'no json']
+                if kind in ('arrappend', 'arrset') and not o.arr: return ['ok', 'no array']
+                if kind == 'setkey': o.j['k'] = val
+                elif kind == 'append': o.j['l'].append(val)
+                elif kind == 'nested': o.j['d']['x'] = val
+                elif kind == 'delkey': o.j.pop('k', None)
+                elif kind == 'assign': o.j = {'k': val, 'l': [], 'd': {'x': 0}}
+                elif kind == 'arrappend': o.arr.append(val)
+                elif kind == 'arrset': o.arr[0] = val
+                elif kind == 'arrassign': o.arr = [val, val + 1]
+            return ['ok', [plain(o.j), plain(o.arr)]]
+        if k == 'jselect':
+            E = w.classes[op[1]]
+            if op[2] == 'attr': return ['ok', sorted(json.dumps(v, sort_keys=True) for v in w.q(select(o.j for o in E if o.tag >= 0)))]
+            return ['ok', sorted([w.pkof(o), json.dumps(o.j.get_untracked() if hasattr(o.j, 'get_untracked') else o.j, sort_keys=True), list(o.arr) if o.arr is not None else None]
+                                 for o in w.q(select(o for o in E if o.tag >= 0)))]
         if k == 'navcls':
             o = w.fetch(op[1], op[2])
             if o is None: return ['absent']
@@ -433,12 +461,14 @@ def gen_obs(rng, schema):
     e = rng.randrange(len(schema['ents']))
     pk = rng.choice(pks_of(schema, e) + [9])
     scal = rng.choice(['tag', 'v', 's'])
-    kinds = ['get', 'attr', 'attr', 'select', 'iterattr', 'load', 'selcls']
+    kinds = ['get', 'attr', 'attr', 'select', 'iterattr', 'load', 'selcls', 'jread', 'jread', 'jselect']
     if schema['ents'][e].get('sub'): kinds += ['subsel', 'selcls']
     if refs[e]: kinds += ['attrref', 'nav', 'selectrel', 'navall', 'attrref', 'navcls', 'navcls']
     if colls[e]: kinds += ['collcls', 'collcls']
     if colls[e]: kinds += ['coll', 'count', 'empty', 'len', 'contains', 'contains', 'itercoll', 'itercount', 'collload', 'coll', 'empty', 'count']
     k = rng.choice(kinds)
+    if k == 'jread': return ['jread', e, pk]
+    if k == 'jselect': return ['jselect', e, rng.choice(['attr', 'obj'])]
     if k == 'selcls': return ['selcls', e]
     if k == 'subsel': return ['subsel', e, rng.choice([0, 1, 2])]
     if k == 'navcls': return ['navcls', e, pk, rng.choice(refs[e])[0]]
@@ -461,7 +491,7 @@ def gen_mod(rng, schema):
     refs, colls = rel_names(schema)
     e = rng.randrange(len(schema['ents']))
     pk = rng.choice(pks_of(schema, e))
-    kinds = ['set', 'set', 'create', 'delete', 'flush', 'commit', 'rollback']
+    kinds = ['set', 'set', 'create', 'delete', 'flush', 'commit', 'rollback', 'jmut', 'jmut', 'jmut']
     if refs[e]: kinds += ['setref', 'setref', 'navsetref', 'seedwrite', 'seedwrite', 'seedwrite']
     if colls[e]: kinds += ['add', 'add', 'remove']
     m2m = [(name, t) for name, t in colls[e] if any(r['kind'] in ('m2m', 'symm') and name in ('r%da' % i, 'r%db' % i) for i, r in enumerate(schema['rels']))]
@@ -481,6 +511,8 @@ def gen_mod(rng, schema):
             out1 = [x for x in et if x not in POPULATED.get((e, g1, name), ())] or et
             owners = [g3, g1, g2]; items = [s1, rng.choice(out2), rng.choice(out1)]
         return ['batchmod', e, name, t, owners, items, rng.choice(['add', 'add', 'remove']), rng.choice(['add', 'add', 'remove', 'set', 'delete'])]
+    if k == 'jmut':
+        return ['jmut', e, pk, rng.choice(['setkey', 'append', 'nested', 'delkey', 'assign', 'arrappend', 'arrset', 'arrassign']), rng.choice([11, 12, 13])]
     if k == 'seedwrite':
         name, t, req = rng.choice(refs[e])
         scalar = rng.choice(['tag', 'v', 's'])
@@ -586,6 +618,7 @@ def decision(what, **kw):
     if what == 'batchSkips': return kw['same'] or kw['createdOrDeleted'] or (kw['hasSd'] and kw['full'])
     return kw['hasItems'] and (kw['lazy'] or not kw['sdNonEmpty'])
 
+CONTAINER = {'seen': 0, 'untracked': []}      # container values found loaded in real sessions / those that are NOT tracked wrappers
 PENDING = []
 LOADERS = []        # (driver request, real vals after, real sets after, description)
 LAZYREF_KEY = 'lazy-reference:one-to-many-collection-loads-empty'
@@ -619,6 +652,7 @@ class Tie(object):
                     o = self.oid(e, row[0]); self.objs.append(o)
                     for a, v in zip(names, row[1:]):
                         if a.reverse: v = None if v is None else self.oid(w.classes.index(a.py_type), v)
+                        elif a.name in ('j', 'arr'): v = None if v is None else zlib.crc32(json.dumps(json.loads(v), sort_keys=True).encode()) % 100000
                         elif isinstance(v, str): v = {'x': 101, 'yy': 102, 'zz': 103, 'n': 104}.get(v, 199)
                         self.dbvals[(o, self.aidx(cls, a))] = v
             self.objs.sort()
@@ -659,6 +693,11 @@ class Tie(object):
                                  sorted(self.oid(w.classes.index(type(x)), x.id) for x in (v.absent or ()))])
                 else:
                     if isinstance(v, core.Entity): v = self.oid(w.classes.index(type(v)), v.id)
+                    elif a.name in ('j', 'arr'):
+                        if v is not None:
+                            CONTAINER['seen'] += 1
+                            if not hasattr(v, 'get_untracked'): CONTAINER['untracked'].append((self.strategy, o, a.name))
+                            v = zlib.crc32(json.dumps(v.get_untracked() if hasattr(v, 'get_untracked') else v, sort_keys=True).encode()) % 100000
                     elif isinstance(v, str): v = {'x': 101, 'yy': 102, 'zz': 103, 'n': 104}.get(v, 199)
                     vals.append([o, self.aidx(cls, a), v])
         return vals, sets
@@ -1064,7 +1103,9 @@ def run(ctx):
     work = ponyutil.workdir('c23')
     base = os.path.join(work, 'base.sqlite')
     try:
-        corpus(ctx, base)
+        try: corpus(ctx, base)
+        except Exception as e:
+            ctx.divergence('the corpus replay raised %s: %s' % (type(e).__name__, str(e)[:200]), {'where': 'corpus'}, model='completes', impl=traceback.format_exc()[-500:])
         n = ctx.scale(180, 1500)
         found = 0
         base_keys = len(ctx.violations) + len(ctx.known_hits)
@@ -1099,6 +1140,11 @@ def run(ctx):
         ctx.count('histories', n)
         Tie.flush_pending(ctx)
         flush_merges(ctx)
+        ctx.count('tie:container-values-loaded', CONTAINER['seen'])
+        for strategy, o, name in CONTAINER['untracked'][:5]:
+            ctx.divergence('a Json / array value loaded into the real session is a plain container, not a tracked one bound to its object (model: every loading path binds)',
+                           {'strategy': strategy, 'object': o, 'attr': name}, model='tracked container', impl='plain dict / list')
+        CONTAINER['seen'] = 0; del CONTAINER['untracked'][:]
     finally:
         ponyutil.rmtree(work)
 
